@@ -336,7 +336,7 @@ PROPS['C18'] = {
 
 PROPS['C17'] = {
     'level': 'proof',
-    'level_text': 'Partial. Proved (Verus, unbounded lengths): the text codec to_base62/from_base62 is value-exact, so a body that does not start with a zero byte survives the text form; mask_with_keystream is an involution for every body length (SHA-512 as uninterpreted function) and never faults. Proved (Kani, all 2^48 triples): the age window is the cyclic distance of the hour stamps in either direction. Known finding: bodies starting with 0x00 are not recovered. NOT decided: finding the markers inside arbitrary text (str::find / slicing), peerlist_decode parsing, different passwords.',
+    'level_text': 'Partial. Proved (Verus, unbounded lengths): the text codec to_base62/from_base62 is value-exact, so a body that does not start with a zero byte survives the text form; mask_with_keystream is an involution for every body length (SHA-512 as uninterpreted function) and never faults. Proved (Kani, all 2^48 triples): the age window is the cyclic distance of the hour stamps in either direction. Proved (Verus): BeaconSerializer::peerlist_decode and decrypt_data verbatim never panic for ANY alphanumeric text (what decode hands over after sanitising), any age limit, any password: the expect, the three assert!s, every slice range and subtraction are justified; get_keystream hashes the whole password. Known finding: bodies starting with 0x00 are not recovered. NOT decided: finding the markers inside arbitrary text (str::find / slicing in BeaconSerializer::decode), the field layout written by peerlist_encode, the 1-byte seed check.',
     'verus': [{'unit': 'base62', 'fns': ['base62_add_mult_16', 'to_base62', 'from_base62', 'lemma_.*']}, {'unit': 'beacon'}],
     'kani': {
         'files': {'src/beacon.rs': ['kani/beaconblocks.rs.in']},
@@ -352,7 +352,7 @@ PROPS['C17'] = {
     ],
     'not_decided': [
         'marker search in arbitrary text (BeaconSerializer::decode: str::find, sanitising, several beacons per text, overlapping begin/end markers)',
-        'peerlist_encode / peerlist_decode field layout (SmallVec, SocketAddr constructors, Wrapping)',
+        'peerlist_encode, and the VALUES peerlist_decode returns (field layout): peerlist_decode is proved panic-free, not value-exact; its age-test statements (std::num::Wrapping) are a pinned call there and a Kani block for the condition',
         'rejection of beacons made with a different password beyond "the whole password reaches the SHA-512 input" (get_keystream contract + lemma_ks_input_injective): the 1-byte seed check and the marker comparison are not under contract; collision resistance is the cipher assumption',
     ],
 }
